@@ -163,7 +163,7 @@ MUTATIONS = ["len16", "len17", "lead-hyphen", "trail-hyphen", "double-hyphen", "
              "bare-underscore", "space", "nonascii-service", "newline-end", "control-instance", "inst64", "inst63", "inst-dotted",
              "inst-nonascii", "total256", "total257", "proto-upper", "proto-missing", "proto-other", "no-local", "no-trailing-dot",
              "sub", "sub-empty", "sub-only", "leading-dot", "double-dot", "empty-service", "inst-del", "local-upper", "inst-surrogate",
-             "sub-surrogate"]
+             "sub-surrogate", "inst-unicode-odd", "sub-unicode-odd"]
 
 
 def build_name(rng: random.Random, muts: List[str]) -> Tuple[str, str]:
@@ -206,6 +206,13 @@ def build_name(rng: random.Random, muts: List[str]) -> Tuple[str, str]:
             inst = (inst or "x") + rng.choice(["\x00", "\x01", "\x1f", "\x7f", "\n"])
         elif m == "inst-del":
             inst = "a\x7fb"
+        elif m == "inst-unicode-odd":
+            # legal: only the ASCII control characters are excluded - separators, format, private-use, unassigned and C1 code
+            # points are ordinary label text
+            inst = rng.choice(["HP\u00a0LaserJet", "\u540d\u3000\u524d", "a\u00adb", "\U0001F468\u200d\U0001F469", "\uf8ff tv", "x\u0085y", "\u2028", "\ufeffbom",
+                               "\U000e0001tag", "\u0378"])
+        elif m == "sub-unicode-odd":
+            sub = rng.choice(["pr\u00a0nt", "\u200dz", "\uf8ff"])
         elif m == "inst-surrogate":
             inst = rng.choice(["\ud800", "a\udfffb", (inst or "x") + "\udc80"])
         elif m == "sub-surrogate":
